@@ -2013,3 +2013,9 @@ mod tests {
         assert!(cache.contains_key(&key3));
     }
 }
+
+// Verification hook (inactive unless compiled by the Kani verifier): pulls the
+// proof harnesses for this module in from the directory named by
+// DATAFUSION_VERIF_DIR so that they can reach private items.
+#[cfg(kani)]
+include!(concat!(env!("DATAFUSION_VERIF_DIR"), "/kani/execution/default_cache.rs"));
